@@ -549,7 +549,8 @@ func c10Run(rc *core.RunCtx) {
 			for _, src := range []string{"a[b] = b\n", "del a[b]\n", "a.x = b\n", "x, y = a, b\n", "for x in a:\n    b\n", "with a as x:\n    b\n", "raise a from b\n",
 				"try:\n    raise a\nexcept b:\n    pass\n", "x = [i for i in a if b]\n", "x = {**{}}\n" /* rejected at compile time: fine */, "class K(a):\n    x = b\n", "assert a, b\n",
 				"def f(p=a, *q, r=b):\n    return p\nf()\n", "x = a if b else b\n", "x = a and b or a\n", "x = not a < b\n", "x = (yield)\n" /* compile error */, "x = a(*b)\n", "x = a(**b)\n", "x = a(b, k=b)\n",
-				"import vh\nvh.log(a, b)\n", "x = '%s %r' % (a, b)\n", "x = str(a) + repr(b)\n", "x = a[b:b]\n", "a[b:b] = a\n", "del a[b:b]\n", "x = a[b, b]\n", "x = a.real\n", "del a.x\n", "global a\na = b\n"} {
+				"import vh\nvh.log(a, b)\n", "@a\ndef f(p=b):\n    return p\n", "@a\n@b\ndef f(p=1, *, k=b):\n    return p\n", "def f(p: a = b) -> a:\n    return p\nf()\n", "@a\nclass K(b):\n    pass\n",
+				"def f(p=a):\n    yield p\n    yield b\nx = list(f())\n", "x = lambda p=a, *q, **r: b\nx()\n", "def f():\n    return a\n    yield b\nnext(f())\n", "class K:\n    x = a\n    def m(self, p=b):\n        return self.x\nK().m()\n", "x = '%s %r' % (a, b)\n", "x = str(a) + repr(b)\n", "x = a[b:b]\n", "a[b:b] = a\n", "del a[b:b]\n", "x = a[b, b]\n", "x = a.real\n", "del a.x\n", "global a\na = b\n"} {
 				if rc.Take() {
 					f := core.Fields{"part": "statements", "op": strings.SplitN(src, "\n", 2)[0], "a": va.name, "b": vb.name, "via": "source"}
 					d := strings.ReplaceAll(strings.TrimSpace(src), "\n", "; ") + "  with a=" + va.name + ", b=" + vb.name
